@@ -169,19 +169,19 @@ def update (t : T) (i : Int) (cols : List (Nat × Nat)) : Except Err T := do
   let r' ← applyCols t.width r cols
   setItem t i r'
 
-/-- one table's part of `TestSuite.commit` -/
+/-- one table's part of `TestSuite.commit` (as repaired by 7d1c791): only additions pending AND the
+relation not compressed → append `table[persistent_count:]`; otherwise the whole table is rewritten
+with `gzip=` "the relation is compressed" (tsdb.write never compresses empty output). -/
 def commit (t : T) : Except Err T :=
   if inTransaction t then
-    if t.vol ≥ (t.pers : Int) then
+    if t.vol ≥ (t.pers : Int) ∧ t.gz = false then
       -- append = True, data = table[persistent_count:]
       match iterSlice t ⟨some (t.pers : Int), none, none⟩ with
       | .error e => .error e
-      | .ok data =>
-        if t.gz then .error .notImplemented      -- tsdb.write: cannot append to a gzipped file
-        else .ok (sync { t with file := t.file ++ data })
+      | .ok data => .ok (sync { t with file := t.file ++ data })
     else
-      -- append = False, data = table: the plain file is rewritten, the .gz one removed
-      .ok (sync { t with file := abs t, gz := false })
+      -- append = False, data = table; a compressed relation stays compressed unless it becomes empty
+      .ok (sync { t with file := abs t, gz := t.gz && !(abs t).isEmpty })
   else .ok (sync t)
 
 inductive Op
